@@ -17,6 +17,7 @@ from .data import (
     Constant,
     DataLabel,
     DebugInfo,
+    HERAError,
     Label,
     Messages,
     Program,
@@ -32,6 +33,7 @@ from .op import (
     DebuggingOperation,
     RegisterBranch,
     RelativeBranch,
+    disassemble,
 )
 from .utils import out_of_range
 
@@ -109,8 +111,12 @@ def typecheck(
 
         # Some modes (e.g., interpreting and debugging) don't support interrupt
         # instructions as their behavior is not defined by the HERA manual.
-        if not settings.allow_interrupts and isinstance(op, (RTI, SWI)):
-            messages.err("hera-py does not support {}".format(op.name), loc=op.loc)
+        if not settings.allow_interrupts:
+            interrupt = interrupt_name(op, symbol_table)
+            if interrupt is not None:
+                messages.err(
+                    "hera-py does not support {}".format(interrupt), loc=op.loc
+                )
 
         if settings.no_debug_ops and isinstance(op, DebuggingOperation):
             messages.err(
@@ -134,6 +140,27 @@ def typecheck(
             symbol_table[op.args[0]] = Constant(symbol_table[op.args[1]])
 
     return (symbol_table, messages)
+
+
+def interrupt_name(op: AbstractOperation, symbol_table) -> "Optional[str]":
+    """
+    Return "SWI" or "RTI" if the operation is one of the interrupt instructions, either
+    directly or as the word of an OPCODE, and None otherwise.
+    """
+    if isinstance(op, (RTI, SWI)):
+        return op.name
+
+    if op.name == "OPCODE" and len(op.args) == 1:
+        value = op.args[0]
+        if isinstance(value, str):
+            value = symbol_table.get(value)
+        if isinstance(value, int):
+            with suppress(HERAError):
+                decoded = disassemble(value)
+                if isinstance(decoded, (RTI, SWI)):
+                    return decoded.name
+
+    return None
 
 
 def check_symbol_redeclaration(program: "List[AbstractOperation]") -> Messages:
